@@ -235,6 +235,13 @@ class FakeHidDevice:
         chan, tag, seq = struct.unpack(">HBH", pkt[:5])
         if chan != CHANNEL or tag != TAG:
             raise AssertionError("HID fake: bad framing")
+        if seq == 0 and getattr(self.bus, "awaiting_answer", False):
+            # a command written while the host is still waiting for the answer to the
+            # previous one (only code running inside that wait - a signal handler - can do it)
+            self.bus.log("command-written-inside-the-wait-for-an-answer")
+            if getattr(self.bus, "nested_log", None):
+                with open(self.bus.nested_log, "a") as f_:
+                    f_.write("nested %s\n" % pkt[7:9].hex())
         if seq == 0:
             # a new command: anything left from an earlier exchange is stale - except
             # after a late answer (Fault "late"): input reports the host never read stay in
@@ -321,7 +328,11 @@ class FakeHidDevice:
             import time as _t
             self._lat_done = True
             try:
-                _t.sleep(lat)
+                self.bus.awaiting_answer = True
+                try:
+                    _t.sleep(lat)
+                finally:
+                    self.bus.awaiting_answer = False
             except BaseException:
                 self._desync = True
                 self._stale = list(getattr(self, "_stale", [])) + list(self._queue)
